@@ -56,6 +56,7 @@ fn dispatch(mode: &str, line: &str) -> String {
     match mode {
         "tsc" => pure::tsc(line),
         "tscd" => pure::tscd(line),
+        "tscs" => pure::tscs(line),
         "dur" => pure::dur(line),
         "prec" => pure::prec(line),
         "precq" => pure::precq(line),
